@@ -311,6 +311,15 @@ def rule_mode(chk):
                 "text/binary mode is no longer detected by probing file.write(b'') (now: %s): a text file-like object of another class is treated as binary (or vice versa) and every write fails" % (how or "no probe"))
         return
     tr, pcall = probe
+    # the probe is made on THIS file at every construction: a verdict remembered per class / per anything else is wrong for
+    # the next file of that kind (a text wrapper and a binary file can share a class)
+    pnode, _pm = common.node_of_call(cfg, pcall)
+    ctor_nodes = [n for n in cfg.live for c, m in calls_in_node(n) if unparse(c.func).endswith("PClass.__new__")]
+    if pnode is not None and ctor_nodes:
+        okp, witp = cfg.must_pass([cfg.entry], ctor_nodes, [pnode], skip_labels=("exc",))
+        chk.req(okp, "C10.mode", "FileDestination.__new__:probe-runs-for-every-file", chk.where(f, pcall.lineno),
+                good="file.write(b'') is executed on every path that constructs the destination",
+                fail="the text/binary probe is skipped on some path (%s): the mode is then taken from somewhere else than this file" % cfg.fmt_path(witp))
     flag = None
     handler_ok = False
     type_handlers = [h for h in tr.handlers if h.type is not None and unparse(h.type) == "TypeError"]
